@@ -3,6 +3,8 @@ package broker
 import (
 	"fmt"
 
+	"github.com/mdzio/go-mqtt/message"
+	"github.com/mdzio/go-mqtt/service"
 	"github.com/mdzio/go-mqtt/verifrt/vsched"
 	"verif/engine/explore"
 	"verif/harness/core"
@@ -290,6 +292,98 @@ func c09sched(c *core.Ctx) {
 			}
 			vsched.Logf("ok")
 		}})
+	}
+	// Server.Close comes after (or while) connections with a will end.  Close stops the
+	// network witnesses too, so the observer is an in-process subscriber (Server.Subscribe).
+	// A connection that ended before Close had its will published exactly once (never after
+	// DISCONNECT) and Close adds nothing to that; a connection Close itself ends, or one
+	// that is cut while Close runs, has its will published at most once.
+	for _, cause := range []string{"cut", "disconnect", "garbage", "alive", "cut-while-closing", "disconnect-while-closing"} {
+		for _, second := range []bool{false, true} {
+			cause, second := cause, second
+			nm := fmt.Sprintf("Server.Close after/with a will-bearing connection: %s", cause)
+			if second {
+				nm += ", a second one alive"
+			}
+			scs = append(scs, scen{nm, func() {
+				t := newTD()
+				seen := map[string]int{}
+				fn := service.OnPublishFunc(func(msg *message.PublishMessage) error {
+					seen[string(msg.Topic())+"="+string(msg.Payload())]++
+					return nil
+				})
+				if err := t.w.Svr.Subscribe("will/#", 0, &fn); err != nil {
+					vsched.Failf("harness: Server.Subscribe: %v", err)
+					return
+				}
+				a := t.connect("A", 0, 65535, true)
+				var b *tdConn
+				if second {
+					b = t.connect("B", 0, 65535, true)
+				}
+				if vsched.Failed() {
+					return
+				}
+				want := -1 // at most once
+				switch cause {
+				case "cut":
+					a.rc.Cut()
+					want = 1
+				case "garbage":
+					a.rc.SendRaw([]byte{0xf0, 0x00})
+					want = 1
+				case "disconnect":
+					a.rc.Send(&refcodec.Packet{Type: refcodec.DISCONNECT})
+					want = 0
+				}
+				t.settleExcept()
+				if want >= 0 && seen["will/a=gone:a"] != want {
+					vsched.Failf("connection A ended (%s): its will was published %d times, expected %d", cause, seen["will/a=gone:a"], want)
+					return
+				}
+				vsched.Mark()
+				closed := false
+				vsched.Go("closer", func() {
+					t.w.Svr.Close()
+					closed = true
+				})
+				switch cause {
+				case "cut-while-closing":
+					a.rc.Cut()
+				case "disconnect-while-closing":
+					a.rc.Send(&refcodec.Packet{Type: refcodec.DISCONNECT})
+				}
+				a.ended = true
+				if b != nil {
+					b.ended = true
+				}
+				t.settleExcept()
+				if !closed {
+					vsched.Failf("Server.Close has not returned: %s", core.ParkedString(vsched.Alive()))
+					return
+				}
+				na := seen["will/a=gone:a"]
+				switch {
+				case want >= 0 && na != want:
+					vsched.Failf("connection A had ended (%s) and its will had been published %d times; after Server.Close it has been published %d times", cause, want, na)
+					return
+				case na > 1:
+					vsched.Failf("the will of connection A (%s) was published %d times", cause, na)
+					return
+				}
+				if nb := seen["will/b=gone:b"]; nb > 1 {
+					vsched.Failf("the will of connection B (ended by Server.Close) was published %d times", nb)
+					return
+				}
+				for k, n := range seen {
+					if k != "will/a=gone:a" && k != "will/b=gone:b" {
+						vsched.Failf("the in-process subscriber of will/# received %q (%d times)", k, n)
+						return
+					}
+				}
+				vsched.Logf("ok")
+			}})
+		}
 	}
 	for _, sc := range scs {
 		if c.Expired() || c.HasViolation() {
